@@ -237,16 +237,15 @@ fn render(c: &Case) -> (String, Option<String>, Expect, &'static [&'static str])
             let raw: Vec<&str> = items.iter().map(|i| TAG_POOL[*i as usize % TAG_POOL.len()]).collect();
             let mut e: Vec<String> = vec![];
             for t in &raw {
-                // list entries are taken verbatim (the docs do not say they are trimmed): only
-                // entries without outer blanks are generated for lists
-                let t = if *as_list { t.trim() } else { t.trim() };
+                // the property: "the trimmed, de-duplicated, non-empty entries of a comma string or list"
+                let t = t.trim();
                 if t.is_empty() || e.iter().any(|x| x == t) {
                     continue;
                 }
                 e.push(t.to_string());
             }
             if *as_list {
-                (format!("[{}]", raw.iter().map(|t| yaml_quote(t.trim())).collect::<Vec<_>>().join(", ")), None, Expect::Tags(Some(e)), TAG_KEYS)
+                (format!("[{}]", raw.iter().map(|t| yaml_quote(t)).collect::<Vec<_>>().join(", ")), None, Expect::Tags(Some(e)), TAG_KEYS)
             } else {
                 let s = raw.join(",");
                 (yaml_quote(&s), Some(s), Expect::Tags(Some(e)), TAG_KEYS)
